@@ -351,7 +351,7 @@ def run_prop(prop, tier, seed):
     proofs_ok = proof_stage(rep, prop)
     rng = random.Random(seed)
     texts, fails = [], 0
-    n = 1500 * common.scale(rep) if tier == "quick" else 40000
+    n = 1500 * common.scale(rep) if tier == "quick" else 150000
     kinds = ["gen", "close", "send", "plain", "send_noclose"]
     dist = {}
     for i in range(n):
@@ -415,7 +415,7 @@ def shared_iterator_oracle(rep, rng, tier):
     """Inside a scoped_iter block successive tools see consecutive suffixes, exactly as a shared synchronous
     iterator with the stdlib tools; at exit the underlying iterator is closed exactly once."""
     fails = 0
-    n = 300 * common.scale(rep) if tier == "quick" else 5000
+    n = 300 * common.scale(rep) if tier == "quick" else 20000
     for _ in range(n):
         items = [Obj(j + 1, rng.randrange(3)) for j in range(rng.randrange(0, 12))]
         apps = []
